@@ -103,6 +103,11 @@ def run(repo, rep, tier):
     L.borrow(repo, rep, "R11.5", "C01", _c01.statement_patterns,
              ("statement-space", "statement-expression-width",
               "split-parts-steps"), minimum=3)
+    # the expression layer rejects what is invalid and nothing else, and cuts
+    # its error tokens out of the text by one group (C04 owns these details)
+    from . import c04 as _c04
+    L.borrow(repo, rep, "R11.5", "C04", _c04.tales_details,
+             ("no-input-guard", "stripped-both-sides", "slice-one-group", "tales-space", "prefix-width"), minimum=2)
     L.state_rule(repo, rep)
 
 
